@@ -73,7 +73,8 @@ def run(chk):
                 for v in (vv if thorough else rng.sample(vv, min(6, len(vv)))):
                     ops.append(f"scast {to} {w}:{fr} {v}")
     for w in ("tainted", "tvol"):
-        for src, dst in (("int", "char"), ("char", "int"), ("int", "st"), ("st", "char"), ("int", "void"), ("pp", "char")):
+        for src, dst in (("int", "char"), ("char", "int"), ("int", "st"), ("st", "char"), ("int", "void"), ("pp", "char"),
+                         ("baseb", "derived"), ("derived", "baseb"), ("derived", "basea"), ("basea", "baseb")):     # class pointees related by inheritance
             for o in ["null", "1", "16", "4660", "65532", "65535"] + [str(rng.randrange(1, BLK)) for _ in range(6 if thorough else 2)]:
                 ops.append(f"rcast {w} {src} {dst} {o}")
         for o in ["null", "4", "65532", str(rng.randrange(1, BLK))]:
